@@ -2,6 +2,7 @@ import Csproto.Props.C02
 import Csproto.Bridge.Facts
 import Csproto.Bridge.WireFuncs
 import Csproto.Bridge.WireFuncs2
+import Csproto.Bridge.DecoderFuncs
 /- axiom audit for C02 -/
 open Csproto
 #print axioms canon_encVarint
@@ -36,3 +37,16 @@ open Csproto
 #print axioms Csproto.Bridge.WireFuncs.DecodeZigZag32_eq
 #print axioms Csproto.Bridge.WireFuncs.DecodeZigZag64_eq
 #print axioms Csproto.Bridge.WireFuncs.key_toNat
+
+-- Decoder METHODS translated from decoder.go refine the transition system Dec.step the property theorems are about: Bridge/DecoderFuncs.lean
+#print axioms Csproto.Bridge.DecoderFuncs.DecodeTag_refines
+#print axioms Csproto.Bridge.DecoderFuncs.DecodeUInt64_refines
+#print axioms Csproto.Bridge.DecoderFuncs.DecodeInt64_refines
+#print axioms Csproto.Bridge.DecoderFuncs.DecodeUInt32_refines
+#print axioms Csproto.Bridge.DecoderFuncs.DecodeInt32_refines
+#print axioms Csproto.Bridge.DecoderFuncs.DecodeSInt32_refines
+#print axioms Csproto.Bridge.DecoderFuncs.DecodeSInt64_refines
+#print axioms Csproto.Bridge.DecoderFuncs.DecodeFixed32_refines
+#print axioms Csproto.Bridge.DecoderFuncs.DecodeFixed64_refines
+#print axioms Csproto.Bridge.DecoderFuncs.Offset_refines
+#print axioms Csproto.Bridge.DecoderFuncs.Reset_refines
